@@ -491,7 +491,7 @@ class SymExec:
         # arr.split_at_mut(k) / split_at(k) with a constant point on a fixed-size array: the two
         # sub-slice locations [0, k) and [k, n)
         if name in ("core::slice::<impl [T]>::split_at_mut", "core::slice::<impl [T]>::split_at") and len(args) == 2 and args[0][0] == "ref":
-            k_ = const_int(args[1])
+            k_ = const_int(fold_consts(args[1]))
             base_loc = args[0][1]
             lo0 = 0
             n_ = self.loc_array_len(base_loc)
@@ -533,7 +533,7 @@ class SymExec:
             if len(args) == 2 and args[0][0] == "ref" and name.startswith("std::array::<impl") and args[1][0] == "agg" and args[1][2] in ("std::ops::Range", "std::ops::RangeTo", "std::ops::RangeFrom"):
                 aty = self.operand_ty(t["args"][0])
                 n_ = aty.to.len if aty is not None and aty.k == "ref" and aty.to is not None and aty.to.k == "array" else None
-                ops_ = [const_int(x) for x in args[1][4]]
+                ops_ = [const_int(fold_consts(x)) for x in args[1][4]]      # (`2 * WORD..3 * WORD` folds to constants)
                 lo_ = hi_ = None
                 if args[1][2] == "std::ops::Range" and len(ops_) == 2:
                     lo_, hi_ = ops_
